@@ -19,6 +19,18 @@ import (
 	"time"
 )
 
+// OutDir is where a run writes evidence/ and replays/ (and finds bin/): the verification tree itself for the
+// registered commands, a directory of its own when ./check runs against a snapshot (VERIF_REPO).
+var OutDir = func() string {
+	if d := os.Getenv("VERIF_OUT"); d != "" {
+		return d
+	}
+	if d := os.Getenv("VERIF_DIR"); d != "" {
+		return d
+	}
+	return "/verif"
+}()
+
 // VerifDir is the root of the verification tree.
 var VerifDir = func() string {
 	if d := os.Getenv("VERIF_DIR"); d != "" {
@@ -285,7 +297,7 @@ func (r *Run) Finish(rule string) {
 	seenKind := map[string]bool{}
 	var replayPaths []string
 	if r.Replay == "" {
-		if old, _ := filepath.Glob(filepath.Join(VerifDir, "replays", r.Prop+"-*.json")); len(old) > 0 {
+		if old, _ := filepath.Glob(filepath.Join(OutDir, "replays", r.Prop+"-*.json")); len(old) > 0 {
 			for _, f := range old {
 				os.Remove(f)
 			}
@@ -347,8 +359,8 @@ func (r *Run) Finish(rule string) {
 	}
 	if r.Replay == "" {
 		b, _ := json.MarshalIndent(ev, "", " ")
-		os.MkdirAll(filepath.Join(VerifDir, "evidence"), 0o755)
-		if err := os.WriteFile(filepath.Join(VerifDir, "evidence", r.Prop+".json"), b, 0o644); err != nil {
+		os.MkdirAll(filepath.Join(OutDir, "evidence"), 0o755)
+		if err := os.WriteFile(filepath.Join(OutDir, "evidence", r.Prop+".json"), b, 0o644); err != nil {
 			fmt.Fprintf(os.Stderr, "harness error: %v\n", err)
 			os.Exit(2)
 		}
@@ -366,7 +378,7 @@ func (r *Run) writeReplay(v Violation) string {
 	doc := map[string]any{"property": r.Prop, "kind": v.Kind, "detail": v.Detail, "witness": v.Witness}
 	b, _ := json.MarshalIndent(doc, "", " ")
 	h := sha1.Sum(b)
-	dir := filepath.Join(VerifDir, "replays")
+	dir := filepath.Join(OutDir, "replays")
 	os.MkdirAll(dir, 0o755)
 	p := filepath.Join(dir, fmt.Sprintf("%s-%x.json", r.Prop, h[:6]))
 	os.WriteFile(p, b, 0o644)
@@ -447,9 +459,13 @@ func Try(fn func()) (pv any, stack string) {
 // ShortStack trims a stack trace to the frames inside the repository.
 func ShortStack(s string) string {
 	var out []string
+	repo := os.Getenv("VERIF_REPO")
+	if repo == "" {
+		repo = "/repo"
+	}
 	lines := strings.Split(s, "\n")
 	for i := 0; i+1 < len(lines); i++ {
-		if strings.Contains(lines[i+1], "/repo/") && !strings.Contains(lines[i], "panic(") {
+		if strings.Contains(lines[i+1], repo+"/") && !strings.Contains(lines[i], "panic(") {
 			fn := strings.TrimSpace(lines[i])
 			if j := strings.Index(fn, "("); j > 0 && !strings.HasPrefix(fn[j:], "(*") {
 				fn = fn[:j]
